@@ -697,6 +697,9 @@ func judgeCall(sch *ref.Schema, svc *svcJ, cl *callJ, m *methodJ, gm *goMethod, 
 	if req.Seq <= lastSeq {
 		return 0, fmt.Errorf("request sequence id %d does not increase (previous call had %d)", req.Seq, lastSeq)
 	}
+	if u, _ := ex["unflushed"].(float64); u != 0 {
+		return 0, fmt.Errorf("the processor wrote %d reply bytes without flushing them: behind a buffering or framing transport the caller never receives them (and they precede the next reply)\n  request %x", int(u), reqB)
+	}
 	if u, _ := ex["unread"].(float64); u != 0 {
 		return 0, fmt.Errorf("the processor left %d bytes of the request unread (the next message on a stream would be misread)\n  request %x", int(u), reqB)
 	}
